@@ -214,6 +214,7 @@ type World struct {
 	nextItem   int
 	submitted  []int
 	prefillN   int
+	prefillItems []*Item
 	inEpilogue bool
 	failedItems []int
 	tamperCount int
